@@ -642,6 +642,21 @@ def _consumer_rejected_join_keeps_identity(kind):
         kind, t == T("abc"), "unchanged" if hash(t) == h0 else "changed", t in held)
 
 
+def _consumer_replace_table_equal_object(how):
+    """replace_table finds the table to replace by ==, wherever it stands (FROM, join item, criterion), not by object identity."""
+    reg = registry()
+    T, Q = reg["Table"], reg["Query"]
+    a, b, c = T("ta"), T("tb", schema="s"), T("tc")
+    q = Q.from_(a).select(a.x, b.y)
+    q = {"on": lambda: q.join(b).on(a.id == b.id), "using": lambda: q.join(b).using("id"), "cross": lambda: q.join(b).cross(),
+         "from": lambda: q.from_(b).where(a.id == b.id)}[how]()
+    same_obj = q.replace_table(b, c).get_sql()
+    equal_obj = q.replace_table(T("tb", schema="s"), c).get_sql()
+    via_schema = q.replace_table(reg["Schema"]("s").tb, c).get_sql()
+    ok = same_obj == equal_obj == via_schema and '"tb"' not in same_obj
+    return "replace-table-by-equality", ok, "replace_table(%s) with the very object gives %r, with an equal object %r, with schema.tb %r" % (how, same_obj[:160], equal_obj[:160], via_schema[:160])
+
+
 CONSUMERS = [
     ("select-after-replace_table", lambda: _consumer_select_after_replace_table(False)),
     ("select-after-replace_table-star", lambda: _consumer_select_after_replace_table(True)),
@@ -656,6 +671,10 @@ CONSUMERS = [
     ("join-same-column-0", lambda: _consumer_join_same_column(0)),
     ("join-same-column-1", lambda: _consumer_join_same_column(1)),
     ("returning-temporal", _consumer_returning_temporal),
+    ("replace-table-equal-object-on", lambda: _consumer_replace_table_equal_object("on")),
+    ("replace-table-equal-object-using", lambda: _consumer_replace_table_equal_object("using")),
+    ("replace-table-equal-object-cross", lambda: _consumer_replace_table_equal_object("cross")),
+    ("replace-table-equal-object-from", lambda: _consumer_replace_table_equal_object("from")),
     ("rejected-self-join-keeps-identity", lambda: _consumer_rejected_join_keeps_identity("self-join-foreign-criterion")),
     ("rejected-cte-join-keeps-identity", lambda: _consumer_rejected_join_keeps_identity("join-unknown-cte")),
     ("rejected-returning-keeps-identity", lambda: _consumer_rejected_join_keeps_identity("returning")),
